@@ -1097,7 +1097,7 @@ class Client:
                 f"{name} must be integer, got bad value: {value!r}"
             )
 
-        return str(value).encode(self.encoding)
+        return str(int(value)).encode(self.encoding)
 
     def _check_cas(self, cas: Union[int, str, bytes]) -> bytes:
         """Check that a value is a valid input for 'cas' -- either an int or a
@@ -1174,7 +1174,7 @@ class Client:
 
         # It is important for all keys to be listed in their original order.
         cmd = name
-        if expire is not None:
+        if name in (b"gat", b"gats"):
             expire_bytes = self._check_integer(expire, "expire")
             cmd += b" " + expire_bytes
 
